@@ -70,12 +70,21 @@ Section Registry.
                  end
     end.
 
-  (* entry-point discovery; a duplicate among entry points is skipped here (the real code
-     would raise: the harness checks the installed entry points are duplicate free) *)
-  Definition load_langs : ltable :=
-    fold_left (fun t d => match reg_lang d t with Some t' => t' | None => t end) ep_langs [].
-  Definition load_gens : gtable :=
-    fold_left (fun t d => match reg_gen d t with Some t' => t' | None => t end) ep_gens [].
+  (* entry-point discovery (language_descriptions / generator_descriptions): the table is set to {} and
+     the entry points are registered in order through register_language / register_generator; the
+     first duplicate raises TextXRegistrationError out of the discovery and leaves the table as loaded
+     so far (not None: discovery is not repeated).  Returns the table and "discovery failed". *)
+  Fixpoint load_from {T D} (reg : D -> T -> option T) (eps : list D) (t : T) : T * bool :=
+    match eps with
+    | [] => (t, false)
+    | d :: r => match reg d t with Some t' => load_from reg r t' | None => (t, true) end
+    end.
+  Definition load_langs_full : ltable * bool := load_from reg_lang ep_langs [].
+  Definition load_gens_full : gtable * bool := load_from reg_gen ep_gens [].
+  Definition load_langs : ltable := fst load_langs_full.
+  Definition load_gens : gtable := fst load_gens_full.
+  Definition load_langs_bad : bool := snd load_langs_full.
+  Definition load_gens_bad : bool := snd load_gens_full.
 
   Definition matches (f : list N) (d : ldesc) : bool :=
     match lpattern d with
@@ -190,13 +199,20 @@ Section Registry.
   Record state := { langs : option ltable; gens : option gtable; cache : list (list N * mm); serial : nat }.
   Definition init : state := {| langs := None; gens := None; cache := []; serial := 0 |}.
 
-  Definition force_l (s : state) : ltable := match langs s with Some t => t | None => load_langs end.
-  Definition force_g (s : state) : gtable := match gens s with Some t => t | None => load_gens end.
+  (* discovery as the source performs it: through the register functions of the source *)
+  Definition iload_langs_full : ltable * bool := load_from ireg_lang ep_langs [].
+  Definition iload_gens_full : gtable * bool := load_from ireg_gen ep_gens [].
+  Definition force_l (s : state) : ltable := match langs s with Some t => t | None => fst iload_langs_full end.
+  Definition force_g (s : state) : gtable := match gens s with Some t => t | None => fst iload_gens_full end.
+  (* would the (lazy) discovery fail now? *)
+  Definition fail_l (s : state) : bool := match langs s with Some _ => false | None => snd iload_langs_full end.
+  Definition fail_g (s : state) : bool := match gens s with Some _ => false | None => snd iload_gens_full end.
   Definition with_l (s : state) (t : ltable) := {| langs := Some t; gens := gens s; cache := cache s; serial := serial s |}.
   Definition with_g (s : state) (t : gtable) := {| langs := langs s; gens := Some t; cache := cache s; serial := serial s |}.
   Definition with_c (s : state) (c : list (list N * mm)) (n : nat) := {| langs := langs s; gens := gens s; cache := c; serial := n |}.
 
-  Definition step (s : state) (o : op) : state * result :=
+  (* an operation once discovery (if any was due) has succeeded *)
+  Definition step_ok (s : state) (o : op) : state * result :=
     match o with
     | RegLang d => let t := force_l s in
                    match ireg_lang d t with
@@ -255,25 +271,45 @@ Section Registry.
     | GenDescs => let t := force_g s in (with_g s t, RGens (flat_map (fun lg => map snd (snd lg)) t))
     end.
 
+  (* which operations consult the language / generator table (and so trigger a due discovery) *)
+  Definition needs_l (o : op) (c : list (list N * mm)) : bool :=
+    match o with
+    | RegLang _ | LangDescription _ | LangsForFile _ | LangForFile _ | MMForFile _ _ | MMsForFile _ | LangDescs => true
+    | MMForLang n kw => match lookup (lw mm_key_lowered n) c, kw with Some _, false => false | _, _ => true end
+    | _ => false
+    end.
+  Definition needs_g (o : op) : bool :=
+    match o with RegGen _ | GenDescription _ _ _ | GenDescs => true | _ => false end.
+
+  (* a failing discovery raises TextXRegistrationError out of whatever operation triggered it; the
+     partially loaded table stays *)
+  Definition step (s : state) (o : op) : state * result :=
+    if (needs_l o (cache s) && fail_l s)%bool then (with_l s (force_l s), RErr)
+    else if (needs_g o && fail_g s)%bool then (with_g s (force_g s), RErr)
+    else step_ok s o.
+
   Fixpoint run (s : state) (ops : list op) : list result :=
     match ops with
     | [] => []
     | o :: ops' => let '(s', r) := step s o in r :: run s' ops'
     end.
 
-  (* ---------------- the specification: eagerly loaded case-insensitive maps *)
-  Record sstate := { slangs : ltable; sgens : gtable; scache : list (list N * mm); sserial : nat }.
-  Definition sinit : sstate := {| slangs := load_langs; sgens := load_gens; scache := []; sserial := 0 |}.
+  (* ---------------- the specification: eagerly loaded case-insensitive maps; when the entry points
+     contain a duplicate, the map holds the entry points before it and the FIRST operation that
+     consults the map after start / clearing reports the registration error ([slfail], [sgfail]) *)
+  Record sstate := { slangs : ltable; slfail : bool; sgens : gtable; sgfail : bool; scache : list (list N * mm); sserial : nat }.
+  Definition sinit : sstate :=
+    {| slangs := load_langs; slfail := load_langs_bad; sgens := load_gens; sgfail := load_gens_bad; scache := []; sserial := 0 |}.
 
-  Definition sstep (s : sstate) (o : op) : sstate * result :=
-    let setl t := {| slangs := t; sgens := sgens s; scache := scache s; sserial := sserial s |} in
-    let setg t := {| slangs := slangs s; sgens := t; scache := scache s; sserial := sserial s |} in
-    let setc c n := {| slangs := slangs s; sgens := sgens s; scache := c; sserial := n |} in
+  Definition sstep_ok (s : sstate) (o : op) : sstate * result :=
+    let setl t := {| slangs := t; slfail := slfail s; sgens := sgens s; sgfail := sgfail s; scache := scache s; sserial := sserial s |} in
+    let setg t := {| slangs := slangs s; slfail := slfail s; sgens := t; sgfail := sgfail s; scache := scache s; sserial := sserial s |} in
+    let setc c n := {| slangs := slangs s; slfail := slfail s; sgens := sgens s; sgfail := sgfail s; scache := c; sserial := n |} in
     match o with
     | RegLang d => match reg_lang d (slangs s) with Some t' => (setl t', RUnit) | None => (s, RErr) end
-    | ClearLangs => ({| slangs := load_langs; sgens := sgens s; scache := []; sserial := sserial s |}, RUnit)
+    | ClearLangs => ({| slangs := load_langs; slfail := load_langs_bad; sgens := sgens s; sgfail := sgfail s; scache := []; sserial := sserial s |}, RUnit)
     | RegGen d => match reg_gen d (sgens s) with Some t' => (setg t', RUnit) | None => (s, RErr) end
-    | ClearGens => (setg load_gens, RUnit)
+    | ClearGens => ({| slangs := slangs s; slfail := slfail s; sgens := load_gens; sgfail := load_gens_bad; scache := scache s; sserial := sserial s |}, RUnit)
     | LangDescription n => (s, match lookup (lower n) (slangs s) with Some d => RLang d | None => RErr end)
     | GenDescription l tg anyp => (s, match gen_description l tg anyp (sgens s) with Some d => RGen d | None => RErr end)
     | LangsForFile f => (s, RLangs (langs_for_file f (slangs s)))
@@ -300,6 +336,21 @@ Section Registry.
     | GenDescs => (s, RGens (flat_map (fun lg => map snd (snd lg)) (sgens s)))
     end.
 
+  (* which operations consult the maps (a cached metamodel is answered without the language map) *)
+  Definition sneeds_l (o : op) (c : list (list N * mm)) : bool :=
+    match o with
+    | RegLang _ | LangDescription _ | LangsForFile _ | LangForFile _ | MMForFile _ _ | MMsForFile _ | LangDescs => true
+    | MMForLang n kw => match lookup (lower n) c, kw with Some _, false => false | _, _ => true end
+    | _ => false
+    end.
+
+  Definition sstep (s : sstate) (o : op) : sstate * result :=
+    if (sneeds_l o (scache s) && slfail s)%bool then
+      ({| slangs := slangs s; slfail := false; sgens := sgens s; sgfail := sgfail s; scache := scache s; sserial := sserial s |}, RErr)
+    else if (needs_g o && sgfail s)%bool then
+      ({| slangs := slangs s; slfail := slfail s; sgens := sgens s; sgfail := false; scache := scache s; sserial := sserial s |}, RErr)
+    else sstep_ok s o.
+
   Fixpoint srun (s : sstate) (ops : list op) : list result :=
     match ops with
     | [] => []
@@ -307,5 +358,5 @@ Section Registry.
     end.
 
   Definition abs (s : state) : sstate :=
-    {| slangs := force_l s; sgens := force_g s; scache := cache s; sserial := serial s |}.
+    {| slangs := force_l s; slfail := fail_l s; sgens := force_g s; sgfail := fail_g s; scache := cache s; sserial := serial s |}.
 End Registry.
